@@ -24,6 +24,7 @@ package acme
 //@   at after call PrefixList#1: ghost listed := true
 //@   at after call PrefixList#1: ghost n := len(callresult0)
 //@   at after call PrefixList#1: ghost vs := snap(callresult0)
+//@   at call append#2: assert each-answer-is-its-own-record-with-exactly-that-one-challenge: len(callarg1) == 1 && cast(callarg1[0], "*dns.TXT") == r && len(r.Txt) == 1 && r.Txt[0] == str(v) && r.Hdr.Name == q.Name && r.Hdr.Rrtype == dns.TypeTXT && r.Hdr.Class == dns.ClassINET
 //@   at call append#2: ghost src[len(ra)] := rangeindex
 //@   at call append#2: ghost pos[rangeindex] := len(ra)
 //@   ensures local-a-storage-failure-is-an-error: (listed && lerr != nil) ==> (err != nil && len(ra) == 0)
@@ -162,3 +163,31 @@ package acme
 //@   loop 2: invariant idx: -1 <= rangeindex#2 && rangeindex#2 < len(keys) && !recursive && fresh(found) && fresh(seen) && 0 <= len(found)
 //@   loop 2: invariant seen: forall a int {found[a]} :: (0 <= a && a < len(found)) ==> seen[found[a]]
 //@   loop 2: invariant nodup: forall a, b int {found[a], found[b]} :: (0 <= a && a < b && b < len(found)) ==> found[a] != found[b]
+
+// ---- C49: every renewal of a lock's lease, periodic or explicit, renews the key's own lease for the configured TTL
+// with the token this instance holds, and records the new token only when the renewal succeeded
+//@ func (c *ChordStorage) renewLeaseOnce(ctx context.Context, key string, l *leaseHolder) (err error)
+//@   safety off
+//@   opt frame=off
+//@   requires c != nil
+//@   ghost renews int = 0
+//@   ghost rerr error = nil
+//@   ghost rtok uint64 = 0
+//@   ghost stores int = 0
+//@   at call Renew#*: assert renews-the-keys-lease-for-the-configured-ttl-with-the-held-token: str(callarg1) == kvKeyName(key) && callarg2 == c.leaseTTL && renews == 0
+//@   at after call Renew#*: ghost rtok := callresult0
+//@   at after call Renew#*: ghost rerr := callresult1
+//@   at after call Renew#*: ghost renews := renews + 1
+//@   at call StoreUint64#?: assert the-new-token-is-recorded-only-after-a-successful-renewal: renews == 1 && rerr == nil && callarg1 == rtok
+//@   at call StoreUint64#?: ghost stores := stores + 1
+//@   ensures local-one-renewal-and-its-error-is-returned: renews == 1 && ((rerr != nil) ==> (err == rerr && stores == 0))
+
+//@ func (c *ChordStorage) RenewLockLease(ctx context.Context, key string, leaseDuration time.Duration) (err error)
+//@   safety off
+//@   opt frame=off
+//@   requires c != nil
+//@   ghost calls int = 0
+//@   at call renewLeaseOnce#*: assert an-explicit-renewal-is-the-same-renewal-as-the-periodic-one: callarg2 == key && calls == 0
+//@   at call renewLeaseOnce#*: ghost calls := calls + 1
+//@   at call Renew#?: assert no-renewal-with-other-parameters: false
+//@   ensures local-at-most-one-renewal: calls <= 1
